@@ -555,6 +555,14 @@ class MiniEval:
 
     def _isinstance(self, v, cls_node, e) -> bool:
         names = [u(x) for x in cls_node.elts] if isinstance(cls_node, ast.Tuple) else [u(cls_node)]
+        if isinstance(cls_node, ast.Call):
+            cv = self.ev(cls_node)  # isinstance(a, type(b)): the class is computed
+            if isinstance(cv, Sym) and "classname" in cv.attrs:
+                names = [cv.attrs["classname"]]
+            elif isinstance(cv, type):
+                return isinstance(v, cv)
+            else:
+                raise AnalysisError(f"{self.where}: computed class in `{u(e)}` is not modelled")
         for n in names:
             pyt = {"int": int, "str": str, "list": list, "tuple": tuple, "dict": dict, "bool": bool, "bytes": bytes, "set": set}.get(n)
             if pyt is not None:
